@@ -78,6 +78,8 @@ def gen(tier, seed):
             for _ in range(8 if thorough else 3):
                 key = rng.data(kl); data = rng.data(rng.choice([64, 65, 130, 300]))
                 n12, n8, n24 = rng.data(12), rng.data(8), rng.data(24)
+                if rng.below(2):      # nonces made of all-ones / zero words: a lane-wise counter increment must not carry into the nonce lanes
+                    n12, n8, n24 = rng.word_pattern(12), rng.word_pattern(8), rng.word_pattern(24)
                 st = rng.choice([0, 1, (1 << 32) - 1])
                 for pub, prt, nonce in (('chacha', 'pchacha', n12), ('chachao', 'pchachao', n8)):
                     setter = ('s.0.%d' % st) if pub == 'chacha' else ('S.0.%d' % (st | (rng.below(1 << 32) << 32)))
@@ -89,7 +91,7 @@ def gen(tier, seed):
                 # whole histories (process / process_mut / in-place sub-slices / seek from any position / clone) on both engines
                 from .c04 import history
                 for pub, prt, nl_ in (('chacha', 'pchacha', 12), ('chachao', 'pchachao', 8)) + ((('xchacha', 'pxchacha', 24),) if kl == 32 else ()):
-                    hkey, hnonce = rng.data(kl), rng.data(nl_)
+                    hkey, hnonce = rng.data(kl), (rng.data(nl_) if rng.below(2) else rng.word_pattern(nl_))
                     steps = ' '.join(history(rng, pub, rng.rng(6, 25)))
                     yield 'sc %s %d %s %s %s #chacha-pair/%s-history/k%d' % (pub, rounds, hkey, hnonce, steps, pub, kl)
                     yield 'sc %s %d %s %s %s #chacha-pair/%s-history/k%d' % (prt, rounds, hkey, hnonce, steps, pub, kl)
